@@ -264,7 +264,8 @@ class Process(object):
         """
         self.debug and logger.info("is reading")
         try:
-            while not please_stop and self.service.returncode is None:
+            while True:
+                # READ TO END-OF-FILE: LINES REMAIN IN THE PIPE AFTER THE PROCESS IS DONE, OR THE OTHER PIPE HAS CLOSED
                 data = pipe.readline()  # THIS MAY NEVER RETURN
                 status.last_read = unix_now()
                 line = data.decode("utf8").rstrip()
